@@ -721,6 +721,11 @@ def _head_effect(f: FuncInfo, st: ast.stmt, s: str, state: frozenset, zero_empty
         t = norm(st.test)
         exit_alpha = f"not {s}[0].isalpha()" in t or f"not {s}[:1].isalpha()" in t or f"not {s}.isidentifier()" in t or (
             f"{s}[0].isidentifier()" in t and f"{s}[0] != '_'" in t and "not (" in t)
+        # the normal form (sa/canon.py) of `not (s[0] != '_' and s[0].isidentifier())`: the loop goes on while the head is an
+        # underscore or no identifier start
+        disj = {norm(d) for x in ast.walk(st.test) if isinstance(x, ast.BoolOp) and isinstance(x.op, ast.Or) for d in x.values}
+        if {f"{s}[0] == '_'", f"not {s}[0].isidentifier()"} <= disj or {f"{s}[0] == '_'", f"not {s}[0].isalpha()"} <= disj:
+            exit_alpha = True
         guarded = f"{s}.strip('_')" in t or f"{s}.lstrip('_')" in t or t.startswith(f"{s} and")
         if exit_alpha and guarded:
             # every iteration must change s (otherwise the loop does not end for some class)
